@@ -276,8 +276,6 @@ func (e *verifEnv) checkAll() {
 }
 
 // step: symbolic clock advance, then one symbolic operation.
-// knownDefect=false cuts the scenario written up in FINDINGS.md (ClearPeer on
-// a peer that holds two live requests for one piece).
 func (e *verifEnv) step() {
 	e.advance()
 	nsub := (1 << uint(e.npieces)) - 1 // non-empty candidate sets
@@ -298,18 +296,11 @@ func (e *verifEnv) step() {
 		e.clear(c - nReserve - nMark)
 	default:
 		p := c - nReserve - nMark - e.npieces
-		for i := 0; i < e.npieces; i++ {
-			if e.liveCount(p, i) > 1 {
-				// known defect, see FINDINGS.md and VerifManagerFindingClearPeer
-				verif.Assume(false)
-			}
-		}
 		e.clearPeer(p)
 	}
 }
 
 func verifHistory(policy string) {
-	verif.Note("ClearPeer on a peer holding two live requests for one piece is cut here (FINDINGS.md; checked by VerifManagerFindingClearPeer)")
 	verif.Note("draws of math/rand.Intn in the default policy are unknowns; native replay cannot force them")
 	e := verifNewEnv(policy, verif.Bound("pieces", 2, 3))
 	k := verif.Bound("steps", 2, 4)
@@ -333,9 +324,11 @@ func VerifManagerHistoryRarestFirst() { verifHistory(RarestFirstPolicy) }
 
 // VerifManagerFindingClearPeer: reserve, let time pass, reserve again for the
 // same peer, remove the peer, let time pass: nothing of the peer may be
-// reported. Fires on the current tree (FINDINGS.md).
+// reported. Regression check for the defect of FINDINGS.md (fixed upstream in
+// /repo by "piecerequest ClearPeer removes every request of the peer").
 func VerifManagerFindingClearPeer() {
 	e := verifNewEnv(DefaultPolicy, 2)
+	e.reserve(1, 2, false) // another peer's request, stays until it expires
 	e.reserve(0, 1, false)
 	e.advance()
 	e.reserve(0, 1, false)
